@@ -74,7 +74,15 @@ impl<'a> PrettyPrinter<'a> {
         }
 
         let import_items_doc = self.convert_import_items(ctx, import_items_nodes);
-        prefix_doc + self.arena.space() + import_items_doc
+        // A line comment at the end of the prefix must not swallow the items.
+        let separator = if (prefix_part.last())
+            .is_some_and(|node| node.kind() == SyntaxKind::LineComment)
+        {
+            self.arena.hardline()
+        } else {
+            self.arena.space()
+        };
+        prefix_doc + separator + import_items_doc
     }
 
     fn convert_import_items(
